@@ -495,6 +495,10 @@ def run(chk: Check) -> None:
     for n_chars in (1, 2):
         run_tokenize(chk, prog, n_chars, universe(), f"U{n_chars}", remap=lambda rid: "C16.R10")
     run_tokenize(chk, prog, 3, frozenset("sgnSGNx7.+ #"), "S3", remap=lambda rid: "C16.R10")
+    # contracts of other parts of the library this check takes for granted (summaries, token model, reference grammar):
+    # the clauses that check the source against them, replayed under this property (props/contracts.py)
+    from .contracts import run_contracts
+    run_contracts(chk, prog, ['parser'])
     chk.exhaustive = True
     chk.max_undecided = 0
 
